@@ -242,6 +242,8 @@ def run(ctx):
                         upd_ok = G.lin(uv).key() == G.Lin(0, {W: 1}).add(G.lin(item_len)).key()
                 except Exception as e:          # non-linear shapes
                     form = "unrecognised (%s)" % e
+                if form == "?":
+                    form = "base %s" % G.show(base)[:160]
                 # source: (as_ptr(item), len(item)) of the same item, item = payload of next() over arg2
                 src_ok = src[0] == "asptr" and item_len == ("len", src[1])
                 item = src[1]
